@@ -1,4 +1,5 @@
 import ScrutModel.Lemmas.TestRunProps
+import ScrutModel.Lemmas.StripAnsi
 /-!
 # The single-script path of `scrut test` without the guards of `Lemmas/TestRunProps.lean`
 
@@ -321,14 +322,84 @@ theorem spec_scriptStream (pay : SRan → Bytes) (code : SRan → Nat) : ∀ (ru
 
 /-! ## `render_output` of the compiled test case -/
 
-/-- `render_output` of the compiled test case on bytes (`strip_ansi_escaping` is not carried into
-the compiled configuration): `replace_crlf` unless the compiled `keep_crlf` is `true` -/
+/-- the CR LF part of `render_output` of the compiled test case: `replace_crlf` unless the compiled
+`keep_crlf` is `true` -/
 def rend (cfg : Compiled) (b : Bytes) : Bytes :=
   if cfg.keepCrlf = some true then b else Crlf.replaceCrlfSpec b
 
-theorem renderOutput_compiled (cfg : Compiled) (raw : Bytes) :
-    Crlf.renderOutput cfg.keepCrlf none (fun b => some b) raw = some (rend cfg raw) :=
-  Crlf.renderOutput_no_strip cfg.keepCrlf none _ raw (by simp)
+/-- `render_output` of the compiled test case on bytes: `rend`, then `strip_ansi_sequences_bytes`
+when the compiled `strip_ansi_escaping` is `true` -/
+def rendFull (cfg : Compiled) (b : Bytes) : Bytes :=
+  if cfg.stripAnsi = some true then StripAnsi.strip (rend cfg b) else rend cfg b
+
+theorem renderOutput_compiled_full (cfg : Compiled) (raw : Bytes) :
+    Crlf.renderOutput cfg.keepCrlf cfg.stripAnsi (fun b => some (StripAnsi.strip b)) raw =
+      some (rendFull cfg raw) := by
+  unfold rendFull rend
+  by_cases hs : cfg.stripAnsi = some true
+  · rw [hs, Crlf.renderOutput_strip]; simp
+  · rw [Crlf.renderOutput_no_strip _ _ _ _ hs]; simp [hs]
+
+theorem esc_not_mem_rend (cfg : Compiled) (b : Bytes) (h : StripAnsi.esc ∉ b) : StripAnsi.esc ∉ rend cfg b := by
+  unfold rend
+  split
+  · exact h
+  · exact fun hin => h ((Crlf.spec_sublist b).subset hin)
+
+/-- bytes without `ESC`: the stripping changes nothing -/
+theorem rendFull_no_esc (cfg : Compiled) (b : Bytes) (h : cfg.stripAnsi ≠ some true ∨ StripAnsi.esc ∉ b) :
+    rendFull cfg b = rend cfg b := by
+  unfold rendFull
+  by_cases hs : cfg.stripAnsi = some true
+  · rcases h with h | h
+    · exact absurd hs h
+    · simp only [hs, if_true]
+      exact StripAnsi.strip_no_esc _ (esc_not_mem_rend cfg b h)
+  · simp only [hs, if_false]
+
+theorem renderOutput_compiled (cfg : Compiled) (raw : Bytes)
+    (h : cfg.stripAnsi ≠ some true ∨ StripAnsi.esc ∉ raw) :
+    Crlf.renderOutput cfg.keepCrlf cfg.stripAnsi (fun b => some (StripAnsi.strip b)) raw =
+      some (rend cfg raw) := by
+  rw [renderOutput_compiled_full, rendFull_no_esc cfg raw h]
+
+theorem esc_not_mem_chunk (i c : Nat) (payload : Bytes) (h : StripAnsi.esc ∉ payload) :
+    StripAnsi.esc ∉ Divider.chunk modelSalt i payload c := by
+  have h0 : StripAnsi.esc ∉ modelSalt := by decide
+  have h1 : StripAnsi.esc ∉ Divider.PREFIX := by decide
+  have h2 : StripAnsi.esc ∉ Divider.SEP := by decide
+  have h3 := Divider.dec_not_mem i StripAnsi.esc (by decide)
+  have h4 := Divider.dec_not_mem c StripAnsi.esc (by decide)
+  have h5 : StripAnsi.esc ∉ [Divider.LF] := by decide
+  rw [Divider.chunk_eq]
+  simp only [Divider.body, List.mem_append, not_or]
+  exact ⟨h, ⟨h1, ⟨⟨⟨⟨h0, h2⟩, h3⟩, h2⟩, h4⟩⟩, h5⟩
+
+/-- what the script writes holds no `ESC` when no command wrote one (the divider lines hold none) -/
+theorem esc_not_mem_scriptStream (pay : SRan → Bytes) (code : SRan → Nat) :
+    ∀ (runs : List SRan) (i : Nat), (∀ r ∈ runs, StripAnsi.esc ∉ pay r) →
+      StripAnsi.esc ∉ scriptStream pay code i runs := by
+  intro runs
+  induction runs with
+  | nil => intro i _; simp [scriptStream]
+  | cons r rs ih =>
+    intro i h
+    have hr := h r (by simp)
+    by_cases hlv : r.leaves = true
+    · simpa only [scriptStream, hlv, if_true] using hr
+    · have hlv' : r.leaves = false := by simpa using hlv
+      simp only [scriptStream, hlv', Bool.false_eq_true, if_false, List.mem_append, not_or]
+      exact ⟨esc_not_mem_chunk i (code r) (pay r) hr, ih (i + 1) (fun r' hr' => h r' (by simp [hr']))⟩
+
+/-- no command wrote an `ESC` byte (to either stream) -/
+def EscFree (runs : List SRan) : Prop :=
+  ∀ r ∈ runs, StripAnsi.esc ∉ r.ran.stdout ∧ StripAnsi.esc ∉ r.ran.stderr
+
+/-- the stripping of the WHOLE captured streams is the identity: the compiled `strip_ansi_escaping`
+is not `true`, or no command wrote an `ESC` byte.  (Without it the stripping does not commute with
+the divider protocol: a sequence a command leaves open runs into the following divider line.) -/
+def StripInert (cfg : Compiled) (runs : List SRan) : Prop :=
+  cfg.stripAnsi ≠ some true ∨ EscFree runs
 
 theorem rend_scriptStream (cfg : Compiled) (pay : SRan → Bytes) (code : SRan → Nat) (runs : List SRan) (i : Nat) :
     rend cfg (scriptStream pay code i runs) = scriptStream (fun r => rend cfg (pay r)) code i runs := by
@@ -434,6 +505,7 @@ theorem execScriptBytes_inv {tests : List Test} {tcs : List Exec.TC} {runs : Lis
     {r : Exec.ExecResult} {cfg : Compiled} (hl : tcs.length = tests.length)
     (hrl : runs.length = tests.length) (hcfg : compileTestcase tests = some cfg)
     (hcode : ∀ r ∈ runs, codeOk r = true) (hsalt : ∀ r ∈ runs, saltFree r = true)
+    (hstrip : StripInert cfg runs)
     (h : execScriptBytes tests tcs runs = .ok r) :
     ((∃ i, r = .skipped i) ∧ scriptSkipHit (cfg.skipCode.getD 80) runs = true) ∨
     ∃ xs, r = .ok xs ∧ scriptSkipHit (cfg.skipCode.getD 80) runs = false ∧
@@ -459,7 +531,27 @@ theorem execScriptBytes_inv {tests : List Test} {tcs : List Exec.TC} {runs : Lis
     rw [(codeOk_spec (hcode r (beforeLeave_subset runs r hr))).2]
   rw [hmap] at hout
   unfold execScriptBytes at h
-  simp only [hcfg, renderOutput_compiled] at h
+  have hescOut : cfg.stripAnsi ≠ some true ∨ StripAnsi.esc ∉
+      (if decide (cfg.outputStream = some Yaml.Stream.combined) = true then
+        scriptStream (fun r => r.ran.stdout ++ r.ran.stderr) (fun r => r.ran.code.toNat) 0 runs
+      else scriptStream (fun r => r.ran.stdout) (fun r => r.ran.code.toNat) 0 runs) := by
+    rcases hstrip with hs | hs
+    · exact Or.inl hs
+    · right
+      split
+      · exact esc_not_mem_scriptStream _ _ runs 0 (fun r hr => by
+          simp only [List.mem_append, not_or]; exact hs r hr)
+      · exact esc_not_mem_scriptStream _ _ runs 0 (fun r hr => (hs r hr).1)
+  have hescErr : cfg.stripAnsi ≠ some true ∨ StripAnsi.esc ∉
+      (if decide (cfg.outputStream = some Yaml.Stream.combined) = true then ([] : Bytes)
+      else scriptStream (fun r => r.ran.stderr) (fun r => r.ran.code.toNat) 0 runs) := by
+    rcases hstrip with hs | hs
+    · exact Or.inl hs
+    · right
+      split
+      · simp
+      · exact esc_not_mem_scriptStream _ _ runs 0 (fun r hr => (hs r hr).2)
+  simp only [hcfg, renderOutput_compiled cfg _ hescOut, renderOutput_compiled cfg _ hescErr] at h
   have hraw : (if decide (cfg.outputStream = some Yaml.Stream.combined) = true then
         scriptStream (fun r => r.ran.stdout ++ r.ran.stderr) (fun r => r.ran.code.toNat) 0 runs
       else scriptStream (fun r => r.ran.stdout) (fun r => r.ran.code.toNat) 0 runs) =
@@ -559,6 +651,74 @@ theorem execScriptBytes_inv {tests : List Test} {tcs : List Exec.TC} {runs : Lis
 
 /-! ## `runScript` -/
 
+theorem setConsistent_origin {α : Type} [DecidableEq α] : ∀ (vs : List (Option α)) (cur : Option α) (x : α),
+    setConsistent cur vs = some (some x) → cur = some x ∨ some x ∈ vs := by
+  intro vs
+  induction vs with
+  | nil =>
+    intro cur x h
+    simp only [setConsistent, Option.some.injEq] at h
+    exact Or.inl h
+  | cons v vs ih =>
+    intro cur x h
+    cases cur with
+    | none =>
+      simp only [setConsistent] at h
+      rcases ih v x h with h1 | h1
+      · exact Or.inr (by simp [h1])
+      · exact Or.inr (by simp [h1])
+    | some c =>
+      simp only [setConsistent] at h
+      split at h
+      · rcases ih (some c) x h with h1 | h1
+        · exact Or.inl h1
+        · exact Or.inr (by simp [h1])
+      · cases h
+
+/-- the five consistent keys of the compiled configuration -/
+theorem compileTestcase_inv {tests : List Test} {cfg : Compiled} (h : compileTestcase tests = some cfg) :
+    setConsistent none (tests.map (·.cfg.keepCrlf)) = some cfg.keepCrlf ∧
+    setConsistent none (tests.map (·.cfg.outputStream)) = some cfg.outputStream ∧
+    setConsistent none (tests.map (·.cfg.skipCode)) = some cfg.skipCode ∧
+    setConsistent none (tests.map (·.cfg.stripAnsi)) = some cfg.stripAnsi := by
+  unfold compileTestcase at h
+  split at h
+  · rename_i d k o s a _ hk ho hs ha
+    split at h
+    · cases h
+    · cases h
+      exact ⟨hk, ho, hs, ha⟩
+  · cases h
+
+/-- a compiled `strip_ansi_escaping: true` comes from a test case that sets it -/
+theorem compiled_stripAnsi_origin {tests : List Test} {cfg : Compiled} (h : compileTestcase tests = some cfg)
+    (hs : cfg.stripAnsi = some true) : ∃ t ∈ tests, t.cfg.stripAnsi = some true := by
+  have ha := (compileTestcase_inv h).2.2.2
+  rw [hs] at ha
+  rcases setConsistent_origin _ none true ha with h1 | h1
+  · cases h1
+  · obtain ⟨t, ht, he⟩ := List.mem_map.1 h1
+    exact ⟨t, ht, he⟩
+
+/-- **the hypothesis of the statements "in terms of the runs" below**: the stripping of the whole
+captured streams is the identity -- no test case sets `strip_ansi_escaping: true`, or no command
+(of the runs the document uses) wrote an `ESC` byte.  Outside it `strip_ansi_sequences_bytes` runs
+over payloads AND divider lines; what holds there is `Props/C16.lean`
+(`C16_script_strip_ansi_no_escape`: nothing else changes when there is nothing to strip) and the
+evaluated documents `ex_strip_*` below. -/
+def ScriptStripInert (tests : List Test) (runs : List SRan) : Prop :=
+  (∀ t ∈ tests, t.cfg.stripAnsi ≠ some true) ∨ EscFree (runs.take tests.length)
+
+theorem stripInert_compiled {tests : List Test} {cfg : Compiled} {runs : List SRan}
+    (hcfg : compileTestcase tests = some cfg) (h : ScriptStripInert tests runs) :
+    StripInert cfg (runs.take tests.length) := by
+  rcases h with h | h
+  · left
+    intro hs
+    obtain ⟨t, ht, he⟩ := compiled_stripAnsi_origin hcfg hs
+    exact h t ht he
+  · exact Or.inr h
+
 /-- the skip code of the one script: the compiled `skip_document_code` (the first one set on a test
 case, which every later test case has to repeat; 80 when none is set) -/
 def scriptSkipCode (tests : List Test) : Int :=
@@ -572,7 +732,8 @@ def scriptSkips (tests : List Test) (runs : List SRan) : Bool :=
 
 /-- **master statement about `runScript` in terms of the runs** -/
 theorem runScript_report_inv {tests : List Test} {runs : List SRan} {outcomes : List Exec.Outcome}
-    {status : Nat} (h : runScript tests runs = .report outcomes status) :
+    {status : Nat} (hstrip : ScriptStripInert tests runs)
+    (h : runScript tests runs = .report outcomes status) :
     ∃ cfg tcs, compileTestcase tests = some cfg ∧ tests.length ≤ runs.length ∧
       tests.mapM (fun t => (accepts t.exps []).map t.tc) = some tcs ∧
       ((scriptSkips tests runs = true ∧
@@ -611,7 +772,7 @@ theorem runScript_report_inv {tests : List Test} {runs : List SRan} {outcomes : 
             refine ⟨cfg, tcs, rfl, Nat.le_of_not_lt hrl, htc, ?_⟩
             unfold scriptSkips
             rw [hcode]
-            rcases execScriptBytes_inv hl htake hcfg hguard.1 hguard.2 hr with
+            rcases execScriptBytes_inv hl htake hcfg hguard.1 hguard.2 (stripInert_compiled hcfg hstrip) hr with
               ⟨⟨k, hk⟩, hhit⟩ | ⟨xs, hxs, hhit, hleave, hzip⟩
             · left
               exact ⟨hhit, by rw [← h1, hk, Exec.runDocument_skipped, hl]⟩
@@ -623,11 +784,13 @@ compiled test case (`replace_crlf` unless the compiled `keep_crlf` is `true`) ap
 test's OWN command wrote to the stream its `output_stream` selects -/
 def scriptRendered (cfg : Compiled) (t : Test) (r : SRan) : Bytes := rend cfg (scriptSelected cfg t r)
 
-/-- `scriptRendered` is the model's `render_output` on the test's own bytes -/
-theorem scriptRendered_spec (cfg : Compiled) (t : Test) (r : SRan) :
-    Crlf.renderOutput cfg.keepCrlf none (fun b => some b) (scriptSelected cfg t r) =
+/-- `scriptRendered` is the model's `render_output` (with the compiled `keep_crlf` and
+`strip_ansi_escaping`) on the test's own bytes, when the stripping has nothing to strip there -/
+theorem scriptRendered_spec (cfg : Compiled) (t : Test) (r : SRan)
+    (h : cfg.stripAnsi ≠ some true ∨ StripAnsi.esc ∉ scriptSelected cfg t r) :
+    Crlf.renderOutput cfg.keepCrlf cfg.stripAnsi (fun b => some (StripAnsi.strip b)) (scriptSelected cfg t r) =
       some (scriptRendered cfg t r) :=
-  renderOutput_compiled cfg _
+  renderOutput_compiled cfg _ h
 
 theorem scriptRendered_keep (cfg : Compiled) (t : Test) (r : SRan) (hk : cfg.keepCrlf = some true) :
     scriptRendered cfg t r = scriptSelected cfg t r := by
@@ -641,13 +804,14 @@ theorem scriptRendered_replace (cfg : Compiled) (t : Test) (r : SRan) (hk : cfg.
 expected exit code, the bytes its OWN command wrote to the selected stream are accepted by its
 expectations after `render_output`, no command left the shell and the document is not skipped -/
 theorem runScript_ok_sound_full {tests : List Test} {runs : List SRan} {outcomes : List Exec.Outcome}
-    {status i : Nat} (h : runScript tests runs = .report outcomes status)
+    {status i : Nat} (hstrip : ScriptStripInert tests runs)
+    (h : runScript tests runs = .report outcomes status)
     (hi : (i, Exec.Verdict.ok) ∈ outcomes) :
     ∃ (t : Test) (r : SRan) (cfg : Compiled), tests[i]? = some t ∧ runs[i]? = some r ∧
       compileTestcase tests = some cfg ∧ r.ran.code = t.expected.getD 0 ∧
       accepts t.exps (scriptRendered cfg t r) = some true ∧
       (∀ r ∈ runs.take tests.length, r.leaves = false) ∧ scriptSkips tests runs = false := by
-  obtain ⟨cfg, tcs, hcfg, hrl, htc, hcases⟩ := runScript_report_inv h
+  obtain ⟨cfg, tcs, hcfg, hrl, htc, hcases⟩ := runScript_report_inv hstrip h
   obtain ⟨hl, htcs⟩ := mapM_option_spec _ tests tcs htc
   rcases hcases with ⟨_, ho⟩ | ⟨hhit, hleave, xs, hzip, ho⟩
   · rw [ho] at hi
@@ -701,13 +865,14 @@ theorem runScript_ok_sound_full {tests : List Test} {runs : List SRan} {outcomes
 exit status 0 -- exactly when `scriptSkips`; no other verdict than `success`, wrong output, wrong
 exit code or `skipped` is reported (completed commands: no timeouts) -/
 theorem runScript_skip {tests : List Test} {runs : List SRan} {outcomes : List Exec.Outcome}
-    {status : Nat} (h : runScript tests runs = .report outcomes status) :
+    {status : Nat} (hstrip : ScriptStripInert tests runs)
+    (h : runScript tests runs = .report outcomes status) :
     (scriptSkips tests runs = true →
       outcomes = (List.range tests.length).map (fun i => (i, Exec.Verdict.skipped)) ∧ status = 0) ∧
     (∀ i, (i, Exec.Verdict.skipped) ∈ outcomes ↔ (i < tests.length ∧ scriptSkips tests runs = true)) ∧
     (∀ o ∈ outcomes, o.2 = .ok ∨ o.2 = .malformed ∨ o.2 = .skipped ∨ ∃ c e, o.2 = .invalidExit c e) := by
   obtain ⟨_, hst, hkinds⟩ := runScript_report h
-  obtain ⟨cfg, tcs, _, hrl, _, hcases⟩ := runScript_report_inv h
+  obtain ⟨cfg, tcs, _, hrl, _, hcases⟩ := runScript_report_inv hstrip h
   have hmem : ∀ i, (i, Exec.Verdict.skipped) ∈
       (List.range tests.length).map (fun i => (i, Exec.Verdict.skipped)) ↔ i < tests.length := by
     intro i
@@ -871,28 +1036,206 @@ theorem setConsistent_spec {α : Type} [DecidableEq α] : ∀ (vs : List (Option
 /-- the compiled skip code is the one every test case that sets a skip code sets -/
 theorem compiled_skipCode {tests : List Test} {cfg : Compiled} (h : compileTestcase tests = some cfg) :
     ∀ t ∈ tests, t.cfg.skipCode = none ∨ t.cfg.skipCode = cfg.skipCode := by
-  unfold compileTestcase at h
-  split at h
-  · rename_i d k o s _ _ _ hs
-    split at h
-    · cases h
-    · cases h
-      intro t ht
-      exact (setConsistent_spec _ none s hs).2 _ (List.mem_map.2 ⟨t, ht, rfl⟩)
-  · cases h
+  intro t ht
+  exact (setConsistent_spec _ none _ (compileTestcase_inv h).2.2.1).2 _ (List.mem_map.2 ⟨t, ht, rfl⟩)
 
 /-- … likewise `keep_crlf` -/
 theorem compiled_keepCrlf {tests : List Test} {cfg : Compiled} (h : compileTestcase tests = some cfg) :
     ∀ t ∈ tests, t.cfg.keepCrlf = none ∨ t.cfg.keepCrlf = cfg.keepCrlf := by
-  unfold compileTestcase at h
-  split at h
-  · rename_i d k o s _ hk _ _
-    split at h
-    · cases h
-    · cases h
-      intro t ht
-      exact (setConsistent_spec _ none k hk).2 _ (List.mem_map.2 ⟨t, ht, rfl⟩)
-  · cases h
+  intro t ht
+  exact (setConsistent_spec _ none _ (compileTestcase_inv h).1).2 _ (List.mem_map.2 ⟨t, ht, rfl⟩)
+
+/-- … likewise `strip_ansi_escaping` -/
+theorem compiled_stripAnsi {tests : List Test} {cfg : Compiled} (h : compileTestcase tests = some cfg) :
+    ∀ t ∈ tests, t.cfg.stripAnsi = none ∨ t.cfg.stripAnsi = cfg.stripAnsi := by
+  intro t ht
+  exact (setConsistent_spec _ none _ (compileTestcase_inv h).2.2.2).2 _ (List.mem_map.2 ⟨t, ht, rfl⟩)
+
+/-! ## `strip_ansi_escaping` in the single-script executor (fix: `set_consistent!(strip_ansi_escaping)`) -/
+
+/-- the test case without the key -/
+def clearStrip (t : Test) : Test := { t with cfg := { t.cfg with stripAnsi := none } }
+
+theorem setConsistent_all_none {α : Type} [DecidableEq α] : ∀ (n : Nat),
+    setConsistent (none : Option α) (List.replicate n none) = some none := by
+  intro n
+  induction n with
+  | zero => rfl
+  | succ n ih => simpa [List.replicate_succ, setConsistent] using ih
+
+theorem setConsistent_all_same {α : Type} [DecidableEq α] (x : α) : ∀ (vs : List (Option α)) (cur : Option α),
+    (cur = none ∨ cur = some x) → (∀ v ∈ vs, v = some x) → ∃ a, setConsistent cur vs = some a := by
+  intro vs
+  induction vs with
+  | nil => intro cur _ _; exact ⟨cur, rfl⟩
+  | cons v vs ih =>
+    intro cur hc hv
+    have hv0 : v = some x := hv v (by simp)
+    have hvs : ∀ w ∈ vs, w = some x := fun w hw => hv w (by simp [hw])
+    rcases hc with hc | hc
+    · subst hc
+      simp only [setConsistent]
+      exact ih v (Or.inr hv0) hvs
+    · subst hc
+      simp only [setConsistent, hv0, if_true]
+      exact ih (some x) (Or.inr rfl) hvs
+
+/-- **an inconsistent key is an execution error** -/
+theorem execScriptBytes_strip_inconsistent (tests : List Test) (tcs : List Exec.TC) (runs : List SRan)
+    (h : setConsistent none (tests.map (·.cfg.stripAnsi)) = none) :
+    execScriptBytes tests tcs runs = .error .exec := by
+  have hc : compileTestcase tests = none := by
+    unfold compileTestcase
+    rw [h]
+    split
+    · rename_i ha; cases ha
+    · rfl
+  unfold execScriptBytes
+  rw [hc]
+
+theorem compileTestcase_clearStrip {tests : List Test} {a : Option Bool}
+    (hcons : setConsistent none (tests.map (·.cfg.stripAnsi)) = some a) :
+    compileTestcase tests =
+      (compileTestcase (tests.map clearStrip)).map (fun c => { c with stripAnsi := a }) := by
+  have e1 : (tests.map clearStrip).map (·.cfg.detached) = tests.map (·.cfg.detached) := by
+    rw [List.map_map]; rfl
+  have e2 : (tests.map clearStrip).map (·.cfg.keepCrlf) = tests.map (·.cfg.keepCrlf) := by
+    rw [List.map_map]; rfl
+  have e3 : (tests.map clearStrip).map (·.cfg.outputStream) = tests.map (·.cfg.outputStream) := by
+    rw [List.map_map]; rfl
+  have e4 : (tests.map clearStrip).map (·.cfg.skipCode) = tests.map (·.cfg.skipCode) := by
+    rw [List.map_map]; rfl
+  have e5 : (tests.map clearStrip).map (·.cfg.stripAnsi) = List.replicate tests.length none := by
+    rw [List.map_map]
+    apply List.ext_getElem
+    · simp
+    · intro i h1 h2; simp [clearStrip]
+  have e6 : (tests.map clearStrip).any (·.cfg.timeout.isSome) = tests.any (·.cfg.timeout.isSome) := by
+    rw [List.any_map]; rfl
+  unfold compileTestcase
+  rw [e1, e2, e3, e4, e5, e6, hcons, setConsistent_all_none]
+  cases setConsistent none (tests.map (·.cfg.detached)) <;>
+    cases setConsistent none (tests.map (·.cfg.keepCrlf)) <;>
+    cases setConsistent none (tests.map (·.cfg.outputStream)) <;>
+    cases setConsistent none (tests.map (·.cfg.skipCode)) <;> simp only [Option.map] <;>
+    split <;> rfl
+
+theorem zipScriptOuts_clearStrip : ∀ (tests : List Test) (outs : List Divider.Out),
+    zipScriptOuts (tests.map clearStrip) outs = zipScriptOuts tests outs := by
+  intro tests
+  induction tests with
+  | nil => intro outs; rfl
+  | cons t ts ih =>
+    intro outs
+    cases outs with
+    | nil => rfl
+    | cons o os =>
+      simp only [List.map_cons, zipScriptOuts, ih os]
+      rfl
+
+/-- **nothing to strip, nothing changes** (executor): a consistent `strip_ansi_escaping` on runs that
+hold no `ESC` byte gives what the document without the key gives -/
+theorem execScriptBytes_strip_no_escape (tests : List Test) (tcs : List Exec.TC) (runs : List SRan)
+    (a : Option Bool) (hcons : setConsistent none (tests.map (·.cfg.stripAnsi)) = some a)
+    (hesc : EscFree runs) :
+    execScriptBytes tests tcs runs = execScriptBytes (tests.map clearStrip) tcs runs := by
+  unfold execScriptBytes
+  rw [compileTestcase_clearStrip hcons]
+  simp only [zipScriptOuts_clearStrip]
+  cases compileTestcase (tests.map clearStrip) with
+  | none => rfl
+  | some c =>
+    obtain ⟨k, o, s, a'⟩ := c
+    have h1 : ∀ r ∈ runs, StripAnsi.esc ∉ r.ran.stdout ++ r.ran.stderr := fun r hr => by
+      simp only [List.mem_append, not_or]; exact hesc r hr
+    have h2 : ∀ r ∈ runs, StripAnsi.esc ∉ r.ran.stdout := fun r hr => (hesc r hr).1
+    have h3 : ∀ r ∈ runs, StripAnsi.esc ∉ r.ran.stderr := fun r hr => (hesc r hr).2
+    have hO : ∀ (x : Option Bool) (pay : SRan → Bytes), (∀ r ∈ runs, StripAnsi.esc ∉ pay r) →
+        Crlf.renderOutput k x (fun b => some (StripAnsi.strip b))
+          (scriptStream pay (fun r => r.ran.code.toNat) 0 runs) =
+        some (rend ⟨k, o, s, none⟩ (scriptStream pay (fun r => r.ran.code.toNat) 0 runs)) := by
+      intro x pay hp
+      exact renderOutput_compiled ⟨k, o, s, x⟩ _ (Or.inr (esc_not_mem_scriptStream pay _ runs 0 hp))
+    have hN : ∀ (x : Option Bool),
+        Crlf.renderOutput k x (fun b => some (StripAnsi.strip b)) [] = some (rend ⟨k, o, s, none⟩ []) := by
+      intro x
+      exact renderOutput_compiled ⟨k, o, s, x⟩ [] (Or.inr (by simp))
+    simp only [Option.map]
+    by_cases hc : o = some .combined
+    · simp only [hc, decide_true, if_true, hO _ _ h1, hN]
+    · simp only [hc, decide_false, Bool.false_eq_true, if_false, hO _ _ h2, hO _ _ h3]
+
+theorem mapM_tc_clearStrip : ∀ (tests : List Test),
+    (tests.map clearStrip).mapM (fun t => (accepts t.exps []).map t.tc) =
+      tests.mapM (fun t => (accepts t.exps []).map t.tc) := by
+  intro tests
+  induction tests with
+  | nil => rfl
+  | cons t ts ih =>
+    simp only [List.map_cons, List.mapM_cons, ih]
+    rfl
+
+/-- **nothing to strip, nothing changes** (`runScript`) -/
+theorem runScript_strip_no_escape (tests : List Test) (runs : List SRan) (a : Option Bool)
+    (hcons : setConsistent none (tests.map (·.cfg.stripAnsi)) = some a)
+    (hesc : EscFree (runs.take tests.length)) :
+    runScript tests runs = runScript (tests.map clearStrip) runs := by
+  unfold runScript
+  simp only [List.length_map, mapM_tc_clearStrip]
+  split
+  · rfl
+  · split
+    · rfl
+    · cases tests.mapM (fun t => (accepts t.exps []).map t.tc) with
+      | none => rfl
+      | some tcs =>
+        simp only [execScriptBytes_strip_no_escape tests tcs _ a hcons hesc]
+
+/-! ### documents with `strip_ansi_escaping`, evaluated by the kernel -/
+
+/-- Markdown under `--cram-compat`, one test with `strip_ansi_escaping: true` expecting the line `foo` -/
+def exStripBytes : Bytes := Utf8.utf8 "# t\n\n```scrut {strip_ansi_escaping: true}\n$ cmd\nfoo\n```\n".toList
+/-- the same document without the key -/
+def exNoStripBytes : Bytes := Utf8.utf8 "# t\n\n```scrut\n$ cmd\nfoo\n```\n".toList
+/-- two tests, the key on both -/
+def exStrip2Bytes : Bytes := Utf8.utf8
+  "# t\n\n```scrut {strip_ansi_escaping: true}\n$ cmd\nfoo\n```\n\n# u\n\n```scrut {strip_ansi_escaping: true}\n$ cmd\nbar\n```\n".toList
+/-- two tests, the key on the first one only -/
+def exStripDivBytes : Bytes := Utf8.utf8
+  "# t\n\n```scrut {strip_ansi_escaping: true}\n$ cmd\nfoo\n```\n\n# u\n\n```scrut\n$ cmd\nbar\n```\n".toList
+/-- `ESC [ 1 m foo ESC [ 0 m LF` -/
+def exSgrFoo : Bytes := [27, 91, 49, 109, 102, 111, 111, 27, 91, 48, 109, 10]
+
+/-- **the key has an effect under `--cram-compat`**: the SGR sequences are removed, `foo` accepts -/
+theorem ex_strip_report :
+    testDocumentCompatBytes exStripBytes [⟨⟨exSgrFoo, [], 0⟩, false⟩] = .report [(0, .ok)] 0 := by
+  decide +kernel
+/-- … without the key the same output is not accepted -/
+theorem ex_nostrip_report :
+    testDocumentCompatBytes exNoStripBytes [⟨⟨exSgrFoo, [], 0⟩, false⟩] = .report [(0, .malformed)] 50 := by
+  decide +kernel
+/-- the key on every test case: both outputs stripped -/
+theorem ex_strip2_report :
+    testDocumentCompatBytes exStrip2Bytes
+      [⟨⟨exSgrFoo, [], 0⟩, false⟩, ⟨⟨[27, 91, 51, 49, 109, 98, 97, 114, 10], [], 0⟩, false⟩] =
+      .report [(0, .ok), (1, .ok)] 0 := by
+  decide +kernel
+/-- diverging values: "inconsistent configuration value for strip_ansi_escaping" -/
+theorem ex_strip_diverging :
+    testDocumentCompatBytes exStripDivBytes [⟨⟨exSgrFoo, [], 0⟩, false⟩, ⟨⟨[98, 97, 114, 10], [], 0⟩, false⟩] =
+      .execError := by
+  decide +kernel
+/-- an unterminated OSC (`ESC ] 0 ; t`) in the first test's output swallows the dividers behind it:
+an execution error, not a verdict -/
+theorem ex_strip_open_osc :
+    testDocumentCompatBytes exStrip2Bytes
+      [⟨⟨[102, 111, 111, 10, 27, 93, 48, 59, 116], [], 0⟩, false⟩, ⟨⟨[98, 97, 114, 10], [], 0⟩, false⟩] =
+      .execError := by
+  decide +kernel
+/-- a lone `ESC` at the end of a command's bytes takes the first `~` of the divider line with it -/
+theorem ex_strip_lone_esc :
+    testDocumentCompatBytes exStripBytes [⟨⟨[102, 111, 111, 10, 27], [], 0⟩, false⟩] = .execError := by
+  decide +kernel
 
 /-! ## lifting to the two document functions -/
 
@@ -946,6 +1289,7 @@ theorem testDocumentCompatBytes_report_iff (bytes : Bytes) (runs : List SRan)
 /-- **T2 lifted, Cram document, no guards** -/
 theorem testCramDocumentBytes_ok_sound_full {bytes : Bytes} {runs : List SRan}
     {outcomes : List Exec.Outcome} {status i : Nat}
+    (hstrip : ∀ tests, CramDocTests bytes tests → ScriptStripInert tests runs)
     (h : testCramDocumentBytes bytes runs = .report outcomes status)
     (hi : (i, Exec.Verdict.ok) ∈ outcomes) :
     ∃ (tests : List Test) (t : Test) (r : SRan) (cfg : Compiled), CramDocTests bytes tests ∧
@@ -954,12 +1298,13 @@ theorem testCramDocumentBytes_ok_sound_full {bytes : Bytes} {runs : List SRan}
       accepts t.exps (scriptRendered cfg t r) = some true ∧
       (∀ r ∈ runs.take tests.length, r.leaves = false) ∧ scriptSkips tests runs = false := by
   obtain ⟨tests, hd, hr⟩ := (testCramDocumentBytes_report_iff _ _ _ _).1 h
-  obtain ⟨t, r, cfg, h1⟩ := runScript_ok_sound_full hr hi
+  obtain ⟨t, r, cfg, h1⟩ := runScript_ok_sound_full (hstrip tests hd) hr hi
   exact ⟨tests, t, r, cfg, hd, h1⟩
 
 /-- **T2 lifted, Markdown under `--cram-compat`, no guards** -/
 theorem testDocumentCompatBytes_ok_sound_full {bytes : Bytes} {runs : List SRan}
     {outcomes : List Exec.Outcome} {status i : Nat}
+    (hstrip : ∀ tests, CompatDocTests bytes tests → ScriptStripInert tests runs)
     (h : testDocumentCompatBytes bytes runs = .report outcomes status)
     (hi : (i, Exec.Verdict.ok) ∈ outcomes) :
     ∃ (tests : List Test) (t : Test) (r : SRan) (cfg : Compiled), CompatDocTests bytes tests ∧
@@ -968,12 +1313,13 @@ theorem testDocumentCompatBytes_ok_sound_full {bytes : Bytes} {runs : List SRan}
       accepts t.exps (scriptRendered cfg t r) = some true ∧
       (∀ r ∈ runs.take tests.length, r.leaves = false) ∧ scriptSkips tests runs = false := by
   obtain ⟨tests, hd, hr⟩ := (testDocumentCompatBytes_report_iff _ _ _ _).1 h
-  obtain ⟨t, r, cfg, h1⟩ := runScript_ok_sound_full hr hi
+  obtain ⟨t, r, cfg, h1⟩ := runScript_ok_sound_full (hstrip tests hd) hr hi
   exact ⟨tests, t, r, cfg, hd, h1⟩
 
 /-- **T4 lifted, Cram document** -/
 theorem testCramDocumentBytes_skip {bytes : Bytes} {runs : List SRan}
     {outcomes : List Exec.Outcome} {status : Nat}
+    (hstrip : ∀ tests, CramDocTests bytes tests → ScriptStripInert tests runs)
     (h : testCramDocumentBytes bytes runs = .report outcomes status) :
     ∃ tests, CramDocTests bytes tests ∧
       (scriptSkips tests runs = true →
@@ -981,11 +1327,12 @@ theorem testCramDocumentBytes_skip {bytes : Bytes} {runs : List SRan}
       (∀ i, (i, Exec.Verdict.skipped) ∈ outcomes ↔ (i < tests.length ∧ scriptSkips tests runs = true)) ∧
       (∀ o ∈ outcomes, o.2 = .ok ∨ o.2 = .malformed ∨ o.2 = .skipped ∨ ∃ c e, o.2 = .invalidExit c e) := by
   obtain ⟨tests, hd, hr⟩ := (testCramDocumentBytes_report_iff _ _ _ _).1 h
-  exact ⟨tests, hd, runScript_skip hr⟩
+  exact ⟨tests, hd, runScript_skip (hstrip tests hd) hr⟩
 
 /-- **T4 lifted, Markdown under `--cram-compat`** -/
 theorem testDocumentCompatBytes_skip {bytes : Bytes} {runs : List SRan}
     {outcomes : List Exec.Outcome} {status : Nat}
+    (hstrip : ∀ tests, CompatDocTests bytes tests → ScriptStripInert tests runs)
     (h : testDocumentCompatBytes bytes runs = .report outcomes status) :
     ∃ tests, CompatDocTests bytes tests ∧
       (scriptSkips tests runs = true →
@@ -993,16 +1340,17 @@ theorem testDocumentCompatBytes_skip {bytes : Bytes} {runs : List SRan}
       (∀ i, (i, Exec.Verdict.skipped) ∈ outcomes ↔ (i < tests.length ∧ scriptSkips tests runs = true)) ∧
       (∀ o ∈ outcomes, o.2 = .ok ∨ o.2 = .malformed ∨ o.2 = .skipped ∨ ∃ c e, o.2 = .invalidExit c e) := by
   obtain ⟨tests, hd, hr⟩ := (testDocumentCompatBytes_report_iff _ _ _ _).1 h
-  exact ⟨tests, hd, runScript_skip hr⟩
+  exact ⟨tests, hd, runScript_skip (hstrip tests hd) hr⟩
 
 /-- **nothing else skips, under the guard "the skip code is not 0"**: a `skipped` verdict means that
 the command of some test in front of which no command left the shell ended with the skip code -/
 theorem runScript_skipped_cause {tests : List Test} {runs : List SRan} {outcomes : List Exec.Outcome}
-    {status i : Nat} (h : runScript tests runs = .report outcomes status)
+    {status i : Nat} (hstrip : ScriptStripInert tests runs)
+    (h : runScript tests runs = .report outcomes status)
     (h0 : scriptSkipCode tests ≠ 0) (hi : (i, Exec.Verdict.skipped) ∈ outcomes) :
     ∃ (j : Nat) (r : SRan), j < tests.length ∧ runs[j]? = some r ∧ r.ran.code = scriptSkipCode tests ∧
       ∀ (k : Nat) (x : SRan), k < j → runs[k]? = some x → x.leaves = false := by
-  have hs := ((runScript_skip h).2.1 i).1 hi
+  have hs := ((runScript_skip hstrip h).2.1 i).1 hi
   rcases (scriptSkips_iff tests runs).1 hs.2 with hc | ⟨_, hz⟩
   · exact hc
   · exact absurd hz h0
@@ -1036,8 +1384,8 @@ theorem ex_crlf_runScript :
     runScript exCrlfTests [⟨⟨[97, 13, 10], [], 0⟩, false⟩] = .report [(0, .ok)] 0 := by
   decide +kernel
 theorem ex_crlf_rendered :
-    compileTestcase exCrlfTests = some ⟨some false, some .combined, some 80⟩ ∧
-    scriptRendered ⟨some false, some .combined, some 80⟩
+    compileTestcase exCrlfTests = some ⟨some false, some .combined, some 80, none⟩ ∧
+    scriptRendered ⟨some false, some .combined, some 80, none⟩
       ⟨{ outputStream := some .combined, keepCrlf := some false, skipCode := some 80 }, [⟨.equal [97], false, false⟩], none⟩
       ⟨⟨[97, 13, 10], [], 0⟩, false⟩ = [97, 10] := by
   decide +kernel
